@@ -125,8 +125,13 @@ def alias_pick_clauses(arng, prog):
     return out
 
 
+MODE_WEIGHT = {"let": 6, "neg": 4, "cmp": 4, "ineq": 4, "fn": 4, "atom": 2, "random": 2, "head": 1}
+
+
 def alias_weight(infos):
-    return 3 if any(x["placement"] == "before" for x in infos) else 1
+    """Choice among the accepted candidates of a clause: rarer kinds and equalities placed
+    before the binder (the union-find chain Var -> Var -> constant) are preferred."""
+    return max(MODE_WEIGHT[x["mode"]] for x in infos) * (3 if any(x["placement"] == "before" for x in infos) else 1)
 
 
 def alias_build_variants(arng, prog, cands, accepted, nvar):
@@ -153,11 +158,23 @@ def alias_build_variants(arng, prog, cands, accepted, nvar):
     return out
 
 
+def obs_const_text(c):
+    """As dc.const_text; a value outside the representation (a non-ground argument, a float,
+    ...: the harness's ["other", printed]) is kept visible instead of raising."""
+    if c[0] == "other":
+        return "<other %s>" % c[1]
+    if c[0] == "pair":
+        return "fn:pair(%s, %s)" % (obs_const_text(c[1]), obs_const_text(c[2]))
+    if c[0] == "list":
+        return "[%s]" % ", ".join(obs_const_text(x) for x in c[1])
+    return dc.const_text(c)
+
+
 def group_obs(g):
     """Comparable observable of one result group: (error class, canonical fact list)."""
     if g["err"] != "":
         return (g["err"], None)
-    return ("", dc.canon(dc.facts_from_go(g["facts"])))
+    return ("", sorted(set("%s(%s)." % (f["p"], ", ".join(obs_const_text(c) for c in f["args"])) for f in g["facts"])))
 
 
 def alias_compare(orig_out, var_out):
@@ -284,7 +301,12 @@ def run(ck):
                 cands[i][ci] = cc
         an_cases.append({"clauses": [dc.clause_text(c) for ci in sorted(cands[i]) for c, _ in cands[i][ci]]})
     an_outs = ck.run_go("c01an", an_cases, timeout=3000)
+    ck.log("alias stream: %d candidate clauses judged by the analysis" % sum(len(c["clauses"]) for c in an_cases))
     variants = []          # (original index, variant program, ops, go case)
+    for i in sorted(corpus_variants):
+        al["originals"] += 1
+        for v in corpus_variants[i]:
+            variants.append((i, v["program"], {}, go_case(v["program"], ALL_STORES, [False, True])))
     for i, o in zip(alias_orig, an_outs):
         if "out" not in o:
             raise RuntimeError("runner c01an failed: %s" % json.dumps(o)[:500])
@@ -308,15 +330,13 @@ def run(ck):
             al["originals"] += 1
         for v, ops in vs:
             gc = go_cases[i]
-            stores, det = (gc["stores"], gc["det"]) if ck.quick else (ALL_STORES, [False, True])
+            # quick: the configurations of the original; thorough: three store kinds x both orders
+            stores, det = (gc["stores"], gc["det"]) if ck.quick else (arng.sample(ALL_STORES, 3), [False, True])
             variants.append((i, v, ops, go_case(v, stores, det, shuffle_rng=arng if arng.random() < 0.5 else None)))
             for infos in ops.values():
                 tally(al["used_by"], infos)
-    for i in sorted(corpus_variants):
-        al["originals"] += 1
-        for v in corpus_variants[i]:
-            variants.append((i, v["program"], {}, go_case(v["program"], ALL_STORES, [False, True])))
     al["variants"] = len(variants)
+    al["corpus_variants"] = sum(len(v) for v in corpus_variants.values())
     all_outs = ck.run_go("c01", go_cases + [v[3] for v in variants], timeout=3000)
     outs, var_outs = all_outs[:len(go_cases)], all_outs[len(go_cases):]
     ck.log("go side done: %d programs, %d alias variants of %d originals (%d/%d candidate clauses accepted by analysis)"
@@ -416,11 +436,15 @@ def run(ck):
         rep = alias_replay_dict(progs[i], v, ops, go_cases[i]["src"], gc["src"], gc["pre"], oo["out"], o["out"], origin[i])
         rep["original_vs_model"] = model_verdict.get(i)
         if verdict == "differ":
-            fs = []
-            for g in oo["out"]["groups"] + o["out"]["groups"]:
-                if g["err"] == "":
-                    fs += dc.facts_from_go(g["facts"])
-            coll = dc.f8_collisions(fs)
+            try:
+                fs = []
+                for g in oo["out"]["groups"] + o["out"]["groups"]:
+                    if g["err"] == "":
+                        fs += dc.facts_from_go(g["facts"])
+                coll = dc.f8_collisions(fs)
+            except ValueError as e:      # a non-ground fact or a value outside the fragment: no F8 excuse
+                rep["outside_fragment"] = str(e)
+                coll = []
             if coll:
                 f8_skipped += 1
                 ck.known("F8 a generated program produced two facts with equal Atom.Hash(): %s / %s" % coll[0])
